@@ -695,7 +695,11 @@ class definition(slots_getstate_setstate):
             print(prefix + "# WARNING: deprecated parameter", file=out)
         for word in self.words:
             line_plus = line + " " + str(word)
-            if len(line_plus) > print_width - 2 and len(line) > len(indent):
+            if (
+                len(line_plus) > print_width - 2
+                and len(line) > len(indent)
+                and "\n" not in line
+            ):
                 print(line + " \\", file=out)
                 line = indent + " " + str(word)
             else:
